@@ -52,6 +52,7 @@ type RunSpec struct {
 	AllProps bool                // report violations of every property, not just Prop
 	KeepScans bool
 	RecordKeys bool
+	Profile  string // generator profile to use (default: the property's own)
 	onCfg    func(*RunCfg)
 }
 
@@ -543,6 +544,9 @@ func RunOne(t *testing.T, spec RunSpec, stats *Stats) (res *RunResult) {
 func runInBubble(spec RunSpec, stats *Stats, res *RunResult) {
 	ch := NewChoices(spec.Seed, spec.Replay)
 	prof := profileFor(spec.Prop)
+	if spec.Profile != "" {
+		prof = profileFor(spec.Profile)
+	}
 	cfg := DrawConfig(ch, prof, spec.Tier)
 	if spec.Mutate != nil {
 		spec.Mutate(cfg)
